@@ -766,19 +766,26 @@ class Interp:
             return z3.Not(self.contains(b, a))
         raise Unsupported("compare op")
 
-    def is_(self, a, b):
-        if isinstance(a, VNone) or isinstance(b, VNone):
-            return self.eq(a, b)
-        if not self.spec and (isinstance(a, VOpt) or isinstance(b, VOpt)):
-            a, b = self.force(a), self.force(b)
-            if isinstance(a, VNone) or isinstance(b, VNone):
-                return self.eq(a, b)
+    def is_(self, a, b_):
+        if isinstance(a, VNone) or isinstance(b_, VNone):
+            return self.eq(a, b_)
+        if not self.spec and (isinstance(a, VOpt) or isinstance(b_, VOpt)):
+            a, b_ = self.force(a), self.force(b_)
+            if isinstance(a, VNone) or isinstance(b_, VNone):
+                return self.eq(a, b_)
         if isinstance(a, (VObj, VFunc, VClass, VDictRec, VSeq, VMap, VSet, VOpaque)) or \
-                isinstance(b, (VObj, VFunc, VClass, VDictRec, VSeq, VMap, VSet, VOpaque)):
-            return z3.BoolVal(a is b)
-        if isinstance(a, VBool) and isinstance(b, VBool):
-            return a.e == b.e
-        raise Unsupported("'is' on values")
+                isinstance(b_, (VObj, VFunc, VClass, VDictRec, VSeq, VMap, VSet, VOpaque)):
+            return z3.BoolVal(a is b_)
+        if isinstance(a, VBool) and isinstance(b_, VBool):
+            return a.e == b_.e
+        # identity of two values of an immutable/opaque type is not modelled: an unconstrained boolean that can only
+        # be true when the values are equal (identity implies equality; nothing follows from non-identity)
+        if self.spec:
+            raise Unsupported("'is' on values")
+        bb = self.path.fresh("is_same", z3.BoolSort())
+        self.path.assume(z3.Implies(bb, self.eq(a, b_)))
+        self.ver.note_assumption("`x is y` on non-heap values: unconstrained except that identity implies equality")
+        return bb
 
     def contains(self, cont, x):
         from . import builtins as B
